@@ -367,6 +367,24 @@ CFRAMES = {"dyadic": ((0.25, 0.25, 0.25), (0., 0., 0.)), "dyadic_aniso": ((0.5, 
 
 
 def run_cart(c, tier, rng, rd, exe):
+    # Layer B: the march with periodic index wrap + position shift (spec/RayMarchPeriodic.tla) refines the closed-form
+    # geometry on the unfolded lattice, folded back
+    shapes = [((1, 0, 0), (2, 1, 1), "MC_Kaps2", 2)] if tier == "quick" else \
+        [((1, 0, 0), (2, 1, 1), "MC_Kaps2", 3), ((1, 0, 1), (2, 2, 1), "MC_Kaps4", 2), ((0, 1, 0), (1, 3, 1), "MC_Kaps3", 2)]
+
+    def mjob(k):
+        per, (nx, ny, nz), kaps, dmax = shapes[k]
+        cfg = os.path.join(rd, "rmp_%d.cfg" % k)
+        tf = lambda b: "TRUE" if b else "FALSE"
+        open(cfg, "w").write("CONSTANTS PX = %s PY = %s PZ = %s R = 4 NX = %d NY = %d NZ = %d DMax = %d\nKaps <- %s\nTaus2 <- MC_Taus\n"
+                             "SPECIFICATION Spec\nCONSTRAINT StillInside\nINVARIANTS MarchRefinesGeometry PathSum\nCHECK_DEADLOCK FALSE\n" % (
+                                 tf(per[0]), tf(per[1]), tf(per[2]), nx, ny, nz, dmax, kaps))
+        return shapes[k], vlib.tlc_model("MC_RayMarchPeriodic.tla", cfg, rd, workers=4, timeout=5000, must_take=("Step",), tag="rmp_%d" % k)
+
+    with ThreadPoolExecutor(max_workers=3) as ex:
+        for sh, r in ex.map(mjob, range(len(shapes))):
+            c.add_model("RayMarchPeriodic refines RayLattice on the unfolded lattice", r,
+                        "periodic %s, block %s, directions in -%d..%d" % (sh[0], sh[1], sh[3], sh[3]))
     grids = [(4, 4, 4), (3, 5, 2), (6, 2, 4), (5, 3, 3), (2, 2, 7), (1, 4, 3), (8, 1, 2)]
     pers = list(itertools.product((0, 1), repeat=3))
     ngrid = 24 if tier == "quick" else 160
